@@ -219,8 +219,9 @@ def run(cx):
     cx.ob("R03.retain-count", cr.id + "|remove-only-at-zero", ok and bool(subs),
           "clear_retain must drop the root only when the decremented count reaches zero", cr.loc(), detail=detail)
     rt = fb.one(r"pico::retained_query::retain$")
-    adds = [s for s in rt.stmts() if s.rv == "binop" and s.j["binop"].startswith("Add")]
-    vins = [t for t in rt.calls() if term_calls(t, r"VacantEntry::<'a, K, V>::insert$")]
+    rt_fam = cone_fns(fb, owner_cone(fb, [rt.id], crates={"pico"}))
+    adds = [s for g_ in rt_fam for s in g_.stmts() if s.rv == "binop" and s.j["binop"].startswith("Add")]
+    vins = [t for g_ in rt_fam for t in g_.calls() if term_calls(t, r"VacantEntry::<'a, K, V>::insert$")]
     one = any(op_const(t.args[1]) and op_const(t.args[1]).get("v") == "1" for t in vins)
     cx.ob("R03.retain-count", rt.id + "|counts", bool(adds) and one,
           "retain must insert a count of 1 or increment the existing count", rt.loc())
